@@ -13,7 +13,7 @@ from dataclasses import dataclass, field
 from typing import Any, Optional
 
 from .context import Ctx
-from .report import AnalysisError
+from .report import AnalysisError, UnprovenScope
 from .srcmodel import ClassInfo, FuncInfo
 from .terms import CallRec, Summary, show, subterms
 
@@ -35,6 +35,7 @@ class CallGraph:
             self.funcs[f.qual] = f
         self.summaries: dict = {}
         self.edges: dict = {}
+        self.unsupported: dict = {}
         self.unresolved: list = []
         self.total_sites = 0
         self.resolved_sites = 0
@@ -71,7 +72,8 @@ class CallGraph:
     def _build(self, f: FuncInfo) -> None:
         s = self.summary(f)
         if s.unsupported:
-            raise AnalysisError(f"{f.qual}: constructs outside the analysed subset {s.unsupported}")
+            # the function stays in the graph with the calls that were seen; anything that *reaches* it is not proved
+            self.unsupported[f.qual] = (f.module.path, list(s.unsupported))
         self.edges.setdefault(f.qual, [])
         seen_nodes = set()
         for c in s.calls:
@@ -160,6 +162,8 @@ class CallGraph:
             if q in seen or q.startswith("<"):
                 continue
             seen.add(q)
+            if q in self.unsupported:
+                raise UnprovenScope(q, *self.unsupported[q])
             for e in self.edges.get(q, []):
                 if e.callee not in seen:
                     stack.append(e.callee)
